@@ -9,6 +9,7 @@ verus! {
 //%% include-assumed inc/varorder.rs
 //%% include trusted/ptreq2.rs
 //%% include prelude/bddshape.rs
+//%% include prelude/decides.rs
 //%% include prelude/canonthm.rs
 } // verus!
 fn main() {}
